@@ -610,11 +610,21 @@ func (s *scenario) play(steps []Ev, sum *tr.Summary) error {
 	if err != nil {
 		return err
 	}
-	ws.SetMaxMessageSize(g0.Max)
+	// The limit is set before the stream becomes active, or - in two of four scenarios - changed afterwards
+	// (lowered from twice, raised from half the value): every part of the stream must see the current one.
+	switch s.sid % 4 {
+	case 1:
+		ws.SetMaxMessageSize(2 * g0.Max)
+	case 3:
+		ws.SetMaxMessageSize(g0.Max / 2)
+	default:
+		ws.SetMaxMessageSize(g0.Max)
+	}
 	s.t = &transport{pp: g0.Pp, dm: g0.Dm}
 	if err := ws.VerifAttach(s.t); err != nil {
 		return err
 	}
+	ws.SetMaxMessageSize(g0.Max)
 	s.ws = ws
 	s.subs = map[int][]byte{}
 	s.matched = map[int]bool{}
